@@ -171,6 +171,17 @@ def check(facts):
     lb = [n for n in facts.body_names() if "pattern_impl" in n and "find_last_match_before" in n]
     if not lb:
         r.error("find_last_match_before not found in the pattern configuration")
+    for fn in sorted(n for n in lb if "{closure" not in n):
+        b = facts.body(fn)
+        for bb, t in b.iter_calls():
+            if (t.get("callee") or "").endswith("Regex::find_from") and len(t["args"]) >= 3:
+                key = "%s rescans from the start of the haystack" % fn
+                if b.const_of_operand(t["args"][2]) == 0:
+                    r.ok(key)
+                else:
+                    r.fail(key, "the reverse helper starts its rescan somewhere other than offset 0 (line %s): matches to the left of that "
+                                "offset are invisible to next_back once the forward cursor has moved (interleaved next / next_back)" % t.get("line"),
+                           facts.loc(fn, t.get("line")))
     ncmp = 0
     for fn in sorted(lb):
         b = facts.body(fn)
